@@ -50,7 +50,113 @@ def run(ctx):
     for r4 in C04.run(ctx):
         if r4.rid in ("DIV-guard", "X-novalue"):
             rules[r4.rid] = r4
+    from rules.borrow import rule_borrow
+    rules["BORROW"] = rule_borrow(ctx, m, files=["Template.hpp", "Tags.hpp", "Finder.hpp", "QExpression.hpp"])
+    rules["TS-tagbit"] = tagbit_access(ctx, m)
+    rules["IDX-ensure"] = loop_item_index(ctx, m)
+    rules["SB-loopitem"] = loop_item_fields(ctx, m)
     return list(rules.values())
+
+
+def tagbit_access(ctx, m):
+    """every typed view Get<K>Tag() of a tag record is taken only when the record's type is proven to be K"""
+    from qlib import tagstate
+    from rules import valuetag
+    r = Rule("TS-tagbit", "Get<K>Tag() is reached only under GetType() == K (typestate over the CFG)", floor=25)
+    spec = valuetag.tagbit_spec(m)
+    for f in m.functions:
+        if f.inst or not f.cfg or not (f.file.endswith("Template.hpp") or f.file.endswith("Tags.hpp")):
+            continue
+        if not any(f.call_simple_name(c) in spec.accessors for c in astq_calls(f)):
+            continue
+        ctx.note_fn(f)
+        for (rule, nid, ok, why, key) in tagstate.run(m, f, spec, None, check_exit=False):
+            if rule == "T1":
+                r.ob(f.sig if f.cls != "Qentem::TemplateCore" else f.q, f.text(nid), ok, why, f.loc(nid))
+        # accessor calls on receivers the typestate cannot name (e.g. storage->Last()->GetLoopTag())
+        for c in astq_calls(f):
+            if f.call_simple_name(c) in spec.accessors:
+                rc = f.call_receiver(c)
+                if rc is not None and f.nodes[f.strip(rc)]["k"] in ("CallExpr", "CXXMemberCallExpr"):
+                    r.ob(f.q, f.text(c), False, "the record is obtained and reinterpreted in one expression: nothing tests its type first", f.loc(c))
+    return r
+
+
+def astq_calls(f):
+    from qlib import astq
+    return astq.calls(f)
+
+
+def loop_item_index(ctx, m):
+    """IDX-ensure: loops_items_->Storage()[L] needs L < Size(); the producer in renderLoop must grow the array until
+    Size() > Level (a single append after `if (Size() <= Level)` only proves Size() >= 1)"""
+    from qlib import astq
+    r = Rule("IDX-ensure", "the loop-item array is grown until it holds the slot of this loop's level", floor=3)
+    f = m.fn("Qentem::TemplateCore::renderLoop")
+    ctx.note_fn(f)
+    subs = [i for i in astq.nodes_of(f, "ArraySubscriptExpr") if f.text(f.nodes[i]["ch"][0]) == "loops_items_->Storage()"]
+    grow_loops = [w for w in astq.nodes_of(f, ("WhileStmt",)) if f.text(f.nodes[w]["cond"]).replace(" ", "").replace("(", "").replace(")", "") == "loops_items_->Size<=tag.Level"]
+    grow_ifs = [w for w in astq.nodes_of(f, ("IfStmt",)) if f.text(f.nodes[w]["cond"]).replace(" ", "").replace("(", "").replace(")", "") == "loops_items_->Size<=tag.Level"]
+    resize_calls = [c for c in astq.calls(f, "ResizeAndInitialize") if "tag.Level" in f.text(c)]
+    for s_ in subs:
+        idx = f.text(f.nodes[s_]["ch"][1])
+        ok = idx == "tag.Level" and (any(w < s_ and astq.calls(f, None, f.nodes[w]["body"]) or True for w in grow_loops) and bool(grow_loops) or bool(resize_calls))
+        why = "index %s; growth step: %s" % (idx, "while (Size() <= Level) append" if grow_loops else ("ResizeAndInitialize(Level + 1)" if resize_calls else
+              ("a single `if (Size() <= Level)` append only proves Size() >= 1, not Size() > Level (a loop nested under <if> blocks skips levels)" if grow_ifs else "none found")))
+        r.ob(f.q, f.text(s_), ok, why, f.loc(s_))
+    # consumers index with the level recorded in the tag under IDLength != 0
+    for name in ("renderVariable", "getValue"):
+        g = m.fn("Qentem::TemplateCore::" + name)
+        for s_ in [i for i in astq.nodes_of(g, "ArraySubscriptExpr") if g.text(g.nodes[i]["ch"][0]) == "loops_items_->Storage()"]:
+            guard = astq.enclosing(g, s_, ("IfStmt",))
+            under = False
+            x = guard
+            while x is not None:
+                ct = g.text(g.nodes[x]["cond"])
+                inthen = s_ in set(g.walk(g.nodes[x]["then"]))
+                if "IDLength" in ct and (("!=" in ct and inthen) or ("==" in ct and not inthen)):
+                    under = True
+                x = astq.enclosing(g, x, ("IfStmt",))
+            r.ob(g.q, g.text(s_), under, "consumer reads the slot only for tags bound to a loop (IDLength != 0), i.e. beneath the loop that ensured it", g.loc(s_))
+    return r
+
+
+def loop_item_fields(ctx, m):
+    """the per-iteration slot of a loop has the fields Value and Key; the object branch and the array branch of renderLoop
+    are siblings and must (re)write the same fields before render(), otherwise the other branch's stale view survives"""
+    from qlib import astq
+    r = Rule("SB-loopitem", "both iteration branches of renderLoop (re)write every field of the loop slot", floor=2)
+    f = m.fn("Qentem::TemplateCore::renderLoop")
+    rec = [x for x in m.records if x["q"] == "Qentem::TemplateCore::LoopItem"]
+    if not rec:
+        r.broke("LoopItem record not found")
+        return r
+    fields = [x["n"] for x in rec[0]["fields"]]
+    loops = [w for w in astq.nodes_of(f, "WhileStmt") if "loop_index" in f.text(f.nodes[w]["cond"])]
+    if len(loops) != 2:
+        r.broke("expected the object and the array iteration loops, found %d" % len(loops))
+        return r
+    for w in loops:
+        body = f.nodes[w]["body"]
+        written = set()
+        for i in f.walk(body):
+            n = f.nodes[i]
+            if n["k"] in ("BinaryOperator",) and n["op"] == "=":
+                t = f.text(n["ch"][0])
+                if t.startswith("item."):
+                    written.add(t.split(".")[1])
+            if n["k"] in ("CallExpr", "CXXMemberCallExpr"):
+                for a in f.call_args(i):
+                    t = f.text(a)
+                    if t.startswith("item."):
+                        written.add(t.split(".")[1])
+                if f.call_receiver(i) is not None and f.text(f.call_receiver(i)).startswith("item.") and f.call_simple_name(i) in ("Reset", "Clear"):
+                    written.add(f.text(f.call_receiver(i)).split(".")[1])
+        missing = [x for x in fields if x not in written]
+        r.ob(f.q, "iteration loop at line %d" % f.nodes[w]["l"], not missing,
+             "fields (re)written per iteration: %s; not written: %s%s" % (sorted(written), missing,
+             " -- a view left by an earlier loop at this level (pointing into that loop's destroyed working copy) stays readable" if missing else ""), f.loc(w))
+    return r
 
 
 def find_next(ctx, m):
